@@ -179,6 +179,54 @@ func runKrep(c *ctx) {
 				forwarder.VerifBuffServer(e.d.g).ServeMsg(reportMsg(items))
 				e.settle()
 				c.emit("T krep.report %s = %s", strings.Join(toks, " "), e.srrs(upOf))
+			case x < 79 && len(ups) > 0:
+				// a burst of single-report notifications for one URR while the loop is held inside a data-plane call (an
+				// establishment whose Create FAR takes 250-450 ms): more of them than the report queue (128) holds wait their
+				// turn — every one must still reach the SMF
+				up := ups[r.intn(len(ups))]
+				urr := uint64(1 + r.intn(4))
+				n := 140 + r.intn(120)
+				lat := time.Duration(250+r.intn(200)) * time.Millisecond
+				e.d.k.mu.Lock()
+				e.d.k.delay = map[uint8]time.Duration{gtp5gnl.CMD_ADD_FAR: lat}
+				e.d.k.mu.Unlock()
+				done := make(chan message.Message, 1)
+				cpb := uint64(0x5000 + ev)
+				go func() {
+					done <- e.rpc(message.NewSessionEstablishmentRequest(0, 0, 0, e.nextSeq(), 0, ie.NewNodeID(e.ip(1), "", ""),
+						ie.NewFSEID(cpb, net.ParseIP(e.ip(1)), nil), ie.NewCreateFAR(ie.NewFARID(9), ie.NewApplyAction(0x02))), &pend)
+				}()
+				time.Sleep(10 * time.Millisecond)
+				bsrv := forwarder.VerifBuffServer(e.d.g)
+				for k := 0; k < n; k++ {
+					bsrv.ServeMsg(reportMsg([][4]uint64{{up, urr, uint64(k), 0x100}}))
+				}
+				rsp := <-done
+				e.d.k.mu.Lock()
+				e.d.k.delay = nil
+				e.d.k.mu.Unlock()
+				e.settle()
+				time.Sleep(20 * time.Millisecond)
+				e.settle()
+				got := 0
+				for _, b := range append(pend, drainConn(e.smf)...) {
+					if m, err := message.Parse(b); err == nil {
+						if sr, ok := m.(*message.SessionReportRequest); ok {
+							got += len(sr.UsageReport)
+						}
+					}
+				}
+				pend = nil
+				bres := "err"
+				if er, ok := rsp.(*message.SessionEstablishmentResponse); ok && causeOf(rsp) == "1" && er.UPFSEID != nil {
+					if f, err := er.UPFSEID.FSEID(); err == nil {
+						bres = fmt.Sprintf("%x", f.SEID)
+						upOf[cpb] = f.SEID
+						ups = append(ups, f.SEID)
+					}
+				}
+				c.count("burst")
+				c.emit("T krep.burst %x %d %d %x = %s n=%d", up, urr, n, cpb, bres, got)
 			case x < 85 && len(ups) > 0:
 				i := r.intn(len(ups))
 				rsp := e.rpc(message.NewSessionDeletionRequest(0, 0, ups[i], e.nextSeq(), 0), &pend)
